@@ -78,8 +78,9 @@ def monSsSwap (amp : Nat) (decimals before : List Nat) (offerIdx askIdx offer gr
   -- 1 unit of rounding up + the recorded accuracy class of the quote (F-13: 16x the C19 bound +
   -- 10^-15 of the ask reserve)
   let tolUnits := 1 + 16 * (2 + 2 * ((gross + offer - 1) / (max offer 1))) + (before.getD askIdx 0) / 1000000000000000
-  -- … or a relative decrease of D below 10^-12 (solver accuracy on absurdly skewed pools)
-  if gross * scale ≤ exact + tolUnits * scale || (db - da) * 1000000000000 ≤ db then some "C03-ss-rounding"
+  -- … or a relative decrease of D below 10^-9 (resolution of the D solver — one unit at the pool's
+  -- precision — amplified on heavily depegged pools)
+  if gross * scale ≤ exact + tolUnits * scale || (db - da) * 1000000000 ≤ db then some "C03-ss-rounding"
   else some "C03-ss-invariant"
 
 /-- C02 (stableswap): pool value per LP token, exact D / supply, never decreases through a deposit
